@@ -1204,9 +1204,14 @@ rrul_fill_mly(echs_instant_t *restrict tgt, size_t nti, rrulsp_t rr)
 		const int bv = echs_shift_bvalue(rr->shift);
 		/* the farthest a date can move forward, business day shifts
 		 * (0B too) jump over weekends which adds up to 2 days */
-		const int fwd = dv + bv * 7 / 5 +
-			(echs_shift_bday_p(rr->shift) &&
-			 !echs_shift_neg_p(rr->shift) ? 2 : 0);
+		const int fwd = dv +
+			(!echs_shift_bday_p(rr->shift)
+			 ? 0
+			 /* forwards it's whole weeks, the rest and a weekend */
+			 : !echs_shift_neg_p(rr->shift)
+			 ? bv / 5 * 7 + bv % 5 + 2
+			 /* backwards it's at least whole weeks and the rest */
+			 : -(-bv / 5 * 7 + -bv % 5));
 
 		tmp = dv + bv * 7 / 5;
 		if (fwd > 0) {
